@@ -5,6 +5,7 @@ import numpy as np
 
 from .. import hlib, symx
 from ..hlib import fm
+from finam.interfaces import IAdapter
 from finam.errors import FinamNoDataError, FinamTimeError
 from finam.sdk.output import Output
 
@@ -84,6 +85,7 @@ def h_events(ctx, _holder=None):
     n = len(spec)
     pubs = []
     last_req = [None] * n
+    last_ok = [None] * n
     direct = [k in ("direct", "scale", "shared", "shared_dfix") for k in spec]
     for i in range(L):
         ev = ctx.choice(f"ev{i}", 1 + n) if pubs else 0
@@ -120,8 +122,13 @@ def h_events(ctx, _holder=None):
                       {"sig": "drop", "consumer": spec[j]})
         if a[0] == "ok" or direct[j]:
             last_req[j] = r
-        # bounded retention once every consumer has pulled
-        regs = list(real._connected_inputs.values())
+        # bounded retention once every consumer has pulled.  End points that pull by themselves are judged by the
+        # harness' own record of their last successful request (not by the output's bookkeeping, which is part
+        # of what is checked); push-based adapters pull at publication times: their registered request is used
+        if a[0] == "ok":
+            last_ok[j] = r
+        regs = [last_ok[jj] for jj in range(n) if direct[jj]]
+        regs += [v for k_, v in real._connected_inputs.items() if isinstance(k_, IAdapter)]
         if all(x is not None for x in regs) and regs:
             tmin = regs[0]
             for x in regs[1:]:
